@@ -29,6 +29,8 @@ Fixpoint spec_v (v : wvalue) : vcall :=
   | OptNoneV => VNone
   | WithDimsV v' d | GDimsV v' d => v_dims d (spec_v v')
   | ForceV v' f => v_force f (spec_v v')
+  | FormattedV ls c => if reaches ls then c else VNone
+  | ToStringV s => VString s
   end.
 
 (* ---- additions on one item ---- *)
@@ -84,6 +86,8 @@ Fixpoint vleaf (v : wvalue) : vcall :=
   | PlainV c => c
   | OptNoneV => VNone
   | ContV _ v' | OptSomeV v' | DynV v' | WithDimsV v' _ | GDimsV v' _ | ForceV v' _ => vleaf v'
+  | FormattedV ls c => if reaches ls then c else VNone
+  | ToStringV s => VString s
   end.
 Definition leaf_item (it : sitem) : item :=
   match it with
